@@ -257,6 +257,11 @@ pub struct PairPlan {
     pub groups: Vec<ClassGroup>,
     /// (group, class1 index, class2 index, rule), grouped by group
     pub crules: Vec<(u16, u16, u16, Rule)>,
+    /// class rules over ARBITRARY (overlapping) glyph sets, insertion order;
+    /// inserted after `crules`, interleaved with the glyph rules. Their
+    /// reference semantics is the rule-ORDER oracle of `order.rs`
+    /// (`lookup` below does not know them).
+    pub orules: Vec<(Vec<u16>, Vec<u16>, Rule)>,
     // derived
     pub gmap: HashMap<(u16, u16), Rule>,
     pub class1_of: HashMap<u16, (u16, u16)>,
@@ -299,7 +304,7 @@ impl PairPlan {
     }
 
     pub fn n_rules(&self) -> usize {
-        self.gmap.len() + self.cmap.len()
+        self.gmap.len() + self.cmap.len() + self.orules.len()
     }
 
     /// Rule-level semantics of one builder: a glyph-pair rule wins over a
@@ -315,12 +320,29 @@ impl PairPlan {
 
     pub fn build(&self, env: &mut Env) -> PairPosBuilder {
         let mut b = PairPosBuilder::default();
+        let to_set = |v: &Vec<u16>| -> IntSet<GlyphId16> { v.iter().map(|g| GlyphId16::new(*g)).collect() };
+        if !self.orules.is_empty() {
+            // glyph-pair and class insertions interleaved: each kind keeps its own order
+            debug_assert!(self.crules.is_empty());
+            for i in 0..self.grules.len().max(self.orules.len()) {
+                if let Some((g1, g2, r)) = self.grules.get(i) {
+                    let v1 = make_vrb(&self.tmpls[r.t1 as usize], r.val, env);
+                    let v2 = make_vrb(&self.tmpls[r.t2 as usize], r.val2(), env);
+                    b.insert_pair(GlyphId16::new(*g1), v1, GlyphId16::new(*g2), v2);
+                }
+                if let Some((s1, s2, r)) = self.orules.get(i) {
+                    let v1 = make_vrb(&self.tmpls[r.t1 as usize], r.val, env);
+                    let v2 = make_vrb(&self.tmpls[r.t2 as usize], r.val2(), env);
+                    b.insert_classes(to_set(s1), v1, to_set(s2), v2);
+                }
+            }
+            return b;
+        }
         for (g1, g2, r) in &self.grules {
             let v1 = make_vrb(&self.tmpls[r.t1 as usize], r.val, env);
             let v2 = make_vrb(&self.tmpls[r.t2 as usize], r.val2(), env);
             b.insert_pair(GlyphId16::new(*g1), v1, GlyphId16::new(*g2), v2);
         }
-        let to_set = |v: &Vec<u16>| -> IntSet<GlyphId16> { v.iter().map(|g| GlyphId16::new(*g)).collect() };
         for (grp, c1, c2, r) in &self.crules {
             let g = &self.groups[*grp as usize];
             let v1 = make_vrb(&self.tmpls[r.t1 as usize], r.val, env);
